@@ -1,6 +1,7 @@
 //! Matcher-side correspondence harness: runs the real nucleo-matcher (built from /repo's working tree
 //! with --cfg nucleo_verif) on cases read from a file and prints one canonical line per case.
 mod chars;
+mod constscmd;
 mod layoutcmd;
 mod matchcmd;
 mod patcmd;
@@ -14,6 +15,7 @@ fn main() {
         "dump-std" => chars::dump_std(),
         "chars-sweep" => chars::sweep(args[2].parse().unwrap(), args[3].parse().unwrap()),
         "layout" => layoutcmd::run(&args[2]),
+        "consts" => constscmd::run(),
         "utf32-seg" => utf32cmd::seg(&args[2]),
         "utf32" => utf32cmd::run(&args[2]),
         "c15-prepare" => patcmd::prepare(&args[2]),
